@@ -16,6 +16,9 @@ pub const PCT_BAD: &[&str] = &["%FF", "%80", "%C3", "%c0%af", "%ED%A0%80", "%F5%
 pub const UCS: &[&str] = &[
     "\u{e9}", "\u{a0}", "\u{d7ff}", "\u{f900}", "\u{fdcf}", "\u{fdf0}", "\u{ffef}", "\u{10000}", "\u{1fffd}",
     "\u{e1000}", "\u{efffd}", "\u{4e2d}", "\u{3b1}", "\u{20ac}", "\u{1f600}",
+    // code points with a reputation: BOM / zero-width no-break space, no-break and other non-ASCII spaces,
+    // soft hyphen, zero-width joiners, line/paragraph separators, replacement-adjacent
+    "\u{feff}", "\u{3000}", "\u{2003}", "\u{205f}", "\u{ad}", "\u{200b}", "\u{200d}", "\u{2028}", "\u{2029}", "\u{fffc}", "\u{130}", "\u{df}",
 ];
 pub const IPRIVATE: &[&str] = &["\u{e000}", "\u{f8ff}", "\u{f0000}", "\u{ffffd}", "\u{100000}", "\u{10fffd}"];
 
@@ -542,6 +545,12 @@ pub fn respell_component(rng: &mut Rng, s: &str, keep_dots: bool) -> String {
     out
 }
 
+/// Every byte percent-encoded: the same octets after decoding (a valid reg-name / user info /
+/// segment / query / fragment whatever the original characters were).
+pub fn encode_all(s: &str, lower: bool) -> String {
+    s.bytes().map(|b| if lower { format!("%{:02x}", b) } else { format!("%{:02X}", b) }).collect()
+}
+
 /// Path with the same normalised sequence: inserts "./" and "x/../" at segment
 /// boundaries and re-spells segments.
 pub fn respell_path(rng: &mut Rng, p: &str) -> String {
@@ -622,7 +631,12 @@ pub fn respell_parts(rng: &mut Rng, p: &Parts) -> Parts {
 /// added, absoluteness flipped, "%2F" vs "/", component presence toggled).
 pub fn perturb_parts(rng: &mut Rng, p: &Parts) -> Parts {
     let mut q = p.clone();
-    match rng.below(10) {
+    match rng.below(11) {
+        10 => {
+            let (qa, fa) = if rng.chance(1, 2) { ("a", "z") } else { ("z", "a") };
+            q.query = Some(format!("{}{}", p.query.clone().unwrap_or_default(), qa));
+            q.fragment = Some(format!("{}{}", p.fragment.clone().unwrap_or_default(), fa));
+        }
         9 => {
             // a segment boundary versus a character that sorts below '/' (orderings must still be total)
             let idx: Vec<usize> = p.path.char_indices().filter(|(i, c)| *c == '/' && *i > 0).map(|(i, _)| i).collect();
